@@ -74,4 +74,83 @@ def sopen (old : Option Bytes) (h : OpenHow) : OpenRes :=
       let c' := if h.trunc then [] else c
       .ok ⟨c', if h.atEnd then c'.length else 0, h.append⟩
 
+/-! ### a stream of calls on one open file description
+
+`SStream` = an open file description (`SFile`) with its access mode (`canRead` / `canWrite`: O_RDONLY, O_WRONLY,
+O_RDWR) and what the owner of the descriptor allows itself to ask (`mayRead` / `mayWrite`). A request the owner does
+not allow itself is refused (`denied`) before anything happens; a `read` on a description without read access
+delivers nothing, a `write` without write access writes nothing (EBADF: count 0). Still no stdio and no chunks. -/
+
+/-- up to and including the first LF (the whole text when there is none) -/
+def uptoLF : Bytes → Bytes
+  | [] => []
+  | b :: r => if b = 10 then [b] else b :: uptoLF r
+
+/-- a line read never delivers more than this many bytes -/
+def LINE_CAP : Nat := 4096
+
+/-- what one "read a line" request delivers from the unread part `rest` of the file: the bytes up to and including
+    the first LF, cut at `LINE_CAP` bytes (the rest of a longer line is delivered by the next request) -/
+def sline (rest : Bytes) : Bytes := uptoLF (rest.take LINE_CAP)
+
+structure SStream where
+  f : SFile
+  canRead : Bool
+  canWrite : Bool
+  mayRead : Bool
+  mayWrite : Bool
+  deriving Repr, DecidableEq
+
+inductive SOp
+  | read (n : Int)
+  | readLine
+  | write (d : Bytes)
+  | seek (w : Whence) (off : Int)
+  | tell
+  | sync
+  deriving Repr, DecidableEq
+
+inductive SRes
+  | data (d : Bytes)
+  /-- `none` = end of file: nothing left to deliver -/
+  | line (l : Option Bytes)
+  | count (n : Nat)
+  | errno (e : Int)
+  | offset (n : Nat)
+  | done
+  | denied
+  deriving Repr, DecidableEq
+
+def sstep (maxOff : Nat) (s : SStream) : SOp → SStream × SRes
+  | .read n =>
+    if !s.mayRead then (s, .denied)
+    else if n ≤ 0 ∨ !s.canRead then (s, .data [])
+    else
+      let r := sread s.f n.toNat
+      ({ s with f := r.2 }, .data r.1)
+  | .readLine =>
+    if !s.mayRead then (s, .denied)
+    else if !s.canRead then (s, .line none)
+    else
+      let rest := s.f.content.drop s.f.pos
+      if rest = [] then (s, .line none)
+      else ({ s with f := { s.f with pos := s.f.pos + (sline rest).length } }, .line (some (sline rest)))
+  | .write d =>
+    if !s.mayWrite then (s, .denied)
+    else if !s.canWrite then (s, .count 0)
+    else ({ s with f := swrite s.f d }, .count d.length)
+  | .seek wh off =>
+    match sseek maxOff s.f wh off with
+    | none => (s, .errno 22)
+    | some f' => ({ s with f := f' }, .errno 0)
+  | .tell => (s, .offset s.f.pos)
+  | .sync => (s, .done)
+
+def srun (maxOff : Nat) : SStream → List SOp → SStream × List SRes
+  | s, [] => (s, [])
+  | s, op :: ops =>
+    let r := sstep maxOff s op
+    let rest := srun maxOff r.1 ops
+    (rest.1, r.2 :: rest.2)
+
 end BlocV.Spec.File
